@@ -31,7 +31,9 @@ CFG = {
             "2-3 member multipolygons, half-integer and long rings, magnitudes up to 2^10 + random float polygons with points kept clear of edges "
             "(incl. ray through vertex, 1-3 ulp high edges, x = -0.0) judged on the exact dyadic values + the four receivers "
             "+ the sampled and float shapes at dyadic scales 2^±20..2^±1000. Every query is asked twice against three slice layouts of the "
-            "polygon (own arrays / windows of one flat buffer with spare capacity / prefix re-slices) with a bit-for-bit snapshot check. "
+            "polygon (own arrays / windows of one flat buffer with spare capacity / prefix re-slices) with a bit-for-bit snapshot check; "
+            "hist lines query one polygon object, change it in place (coordinates overwritten / ring slots re-pointed), query again and change back, "
+            "each answer judged for the polygon as it is at that call. "
             "A grid line is one polygonal geometry against all grid points; distinct = distinct input line; non-trivial = class not 'skipped'",
     "timeout": {"quick": 900, "thorough": 3000},
 }
